@@ -114,11 +114,12 @@ def do_run(names, tier, props=None, jobs=1):
             for prop in targets:
                 env = dict(os.environ, GAMBATOOLS_SRC=os.path.join(wt, "src"), VERIF_EVIDENCE_DIR=os.path.join(tmp, "ev"), VERIF_NEW_REPLAYS=os.path.join(tmp, "rp"),
                            VERIF_NOTEBOOKS=os.path.join(wt, "notebooks"))
-                p = sh([PY, os.path.join(ROOT, "harness", "check.py"), prop, "--tier", tier, "--no-selftest"], env=env)
+                p = sh([PY, os.path.join(ROOT, "harness", "check.py"), prop, "--tier", tier, "--no-selftest"] + (["--clauses", os.environ["SEEDED_CLAUSES"]] if os.environ.get("SEEDED_CLAUSES") else []), env=env)
                 verdict = {0: "MISSED", 1: "caught", 2: "HARNESS-ERROR"}.get(p.returncode, "rc=%d" % p.returncode)
                 fails = [l for l in p.stdout.splitlines() if l.startswith("FAIL")]
-                results[prop] = {"verdict": verdict, "tier": tier, "first_failure": fails[0][:300] if fails else ""}
-                print("%-40s %s %s %s" % (name, prop, verdict, fails[0][:160] if fails else (p.stdout[-300:] if verdict == "HARNESS-ERROR" else "")))
+                results[prop] = {"verdict": verdict, "tier": tier, "first_failure": fails[0][:300] if fails else "",
+                                 "failing_clauses": sorted(set(l.split()[1].split("/")[1] for l in fails if "/" in l.split()[1]))}
+                print("%-40s %s %s %s %s" % (name, prop, verdict, ",".join(results[prop]["failing_clauses"]), fails[0][:160] if fails else (p.stdout[-300:] if verdict == "HARNESS-ERROR" else "")))
             m["check_results"] = dict(m.get("check_results", {}), **results)
             json.dump(m, open(mpath, "w", encoding="utf8"), indent=1, ensure_ascii=False)
         finally:
